@@ -218,6 +218,10 @@ def main(argv=None):
                     violations.append(f)
         # ---- report ----------------------------------------------------
         rc = 0
+        global REPLAY_DIR
+        if os.environ.get('PSIM_MUTANT') or os.environ.get('PSIM_SCRATCH'):
+            import tempfile
+            REPLAY_DIR = tempfile.mkdtemp(prefix='psim-mutant-replays-')
         os.makedirs(REPLAY_DIR, exist_ok=True)
         reported = []
         for f in violations[:5]:
@@ -247,8 +251,14 @@ def main(argv=None):
         pool.shutdown(wait=False, cancel_futures=True)
     wall = time.time() - t0
     agg.finish(wall, len(violations), skipped, known_hits, harness_errors)
-    os.makedirs(EVIDENCE_DIR, exist_ok=True)
-    with open(os.path.join(EVIDENCE_DIR, '%s.json' % prop), 'w') as fh:
+    evdir = EVIDENCE_DIR
+    if os.environ.get('PSIM_MUTANT') or os.environ.get('PSIM_SCRATCH'):
+        # sensitivity self-test / seeded breakages: never overwrite real
+        # evidence
+        import tempfile
+        evdir = tempfile.mkdtemp(prefix='psim-mutant-evidence-')
+    os.makedirs(evdir, exist_ok=True)
+    with open(os.path.join(evdir, '%s.json' % prop), 'w') as fh:
         json.dump(agg.evidence(), fh, indent=1, sort_keys=True, default=str)
     if harness_errors:
         print('HARNESS ERROR (%d):' % len(harness_errors))
